@@ -94,15 +94,37 @@ def build(repo, targets):
                 os.unlink(o)
         dh = driver_hash()
         jobs = []
+        # "<target>_gcc": the same driver and library compiled with g++ (the compiler the repository's own build uses):
+        # order of evaluation, library and code generation differences become visible to the checks that ask for it
+        if any(t.endswith("_gcc") for t in targets):
+            glib = os.path.join(bdir, "libgdstk_gcc.a")
+            if not os.path.exists(glib):
+                srcs = [p for p in tree_files(repo) if p.endswith(".cpp") and
+                        (os.sep + "src" + os.sep in p or p.endswith("clipper.cpp"))]
+                objs, gjobs = [], []
+                for s_ in srcs:
+                    o = os.path.join(bdir, "gcc_" + os.path.basename(s_)[:-4] + ".o")
+                    objs.append(o)
+                    gjobs.append(["g++"] + COMMON + inc + ["-c", s_, "-o", o])
+                with ThreadPoolExecutor(16) as ex:
+                    list(ex.map(run, gjobs))
+                run(["ar", "rcs", glib + ".tmp"] + objs)
+                os.rename(glib + ".tmp", glib)
+                for o in objs:
+                    os.unlink(o)
         for t in targets:
-            src = os.path.join(VERIF, "driver", t + ".cpp")
+            gcc = t.endswith("_gcc")
+            src = os.path.join(VERIF, "driver", (t[:-4] if gcc else t) + ".cpp")
             if not os.path.exists(src):
                 continue
             exe = os.path.join(bdir, "%s.%s" % (t, dh))
             link = os.path.join(bdir, t)
             if not os.path.exists(exe):
                 extra = ["-fsanitize=fuzzer"] if t.startswith("fuzz_") else []
-                jobs.append((exe, [CXX] + COMMON + extra + inc + [src, lib] + LIBS + ["-o", exe + ".tmp"]))
+                if gcc:
+                    jobs.append((exe, ["g++"] + COMMON + inc + [src, os.path.join(bdir, "libgdstk_gcc.a")] + LIBS + ["-o", exe + ".tmp"]))
+                else:
+                    jobs.append((exe, [CXX] + COMMON + extra + inc + [src, lib] + LIBS + ["-o", exe + ".tmp"]))
             # stale variants of this target
             for f in os.listdir(bdir):
                 if f.startswith(t + ".") and f != os.path.basename(exe) and not f.endswith(".tmp"):
